@@ -216,7 +216,7 @@ func c06Run(c *Ctx) {
 	Flags{}.Apply()
 	c06GzipMembers(c, alpha)
 	// every line length up to past the reader's limit, five line shapes, on the real stream code
-	streamLenSweep(c, "C06", []string{"secret-pad", "keep-blanks", "keep-mixed", "fixed-point", "array-pad"}, Flags{})
+	streamLenSweep(c, "C06", []string{"secret-pad", "keep-blanks", "keep-mixed", "keep-multibyte", "fixed-point", "array-pad"}, Flags{})
 	switch c.Shard {
 	case 3:
 		c06Volume(c, 6000, Flags{})
